@@ -71,25 +71,50 @@ def make_args_unique(a: ast.Lambda) -> ast.Lambda:
                 mapping = [(a.arg, arg_name()) for a in node.args.args]
                 self._seen_lambda = True
 
+            # Defaults are evaluated outside the lambda: its parameters hide nothing there.
+            node.args.defaults = [self.visit(d) for d in node.args.defaults]
+            node.args.kw_defaults = [
+                self.visit(d) if d is not None else None for d in node.args.kw_defaults
+            ]
+
             for old, new in mapping:
                 self._arg_stack.append((old, new))
 
-            r = self.generic_visit(node)
-            assert isinstance(r, ast.Lambda)
+            node.body = self.visit(node.body)
 
-            r.args.args = [ast.arg(arg=new, annotation=None) for old, new in mapping]
-            for arg in node.args.args:
+            node.args.args = [ast.arg(arg=new, annotation=None) for old, new in mapping]
+            for _ in mapping:
                 self._arg_stack.pop()
 
-            return r
+            return node
 
         def visit_Name(self, node: ast.Name) -> ast.Name:
             for n in reversed(self._arg_stack):
                 if n[0] == node.id:
-                    return ast.Name(id=n[1])
+                    return ast.Name(id=n[1], ctx=getattr(node, "ctx", ast.Load()))
             return node
 
     return replace_args().visit(copy.deepcopy(a))
+
+
+def _binds_all_parameters(call_node: ast.Call) -> bool:
+    """Can the call of a lambda be replaced by the lambda's body - does every parameter get
+    exactly one value from a positional argument, a keyword or its default?"""
+    l_args = call_node.func.args  # type: ignore
+    if l_args.vararg or l_args.kwarg or l_args.kwonlyargs or l_args.posonlyargs:
+        return False
+    if any(isinstance(a, ast.Starred) for a in call_node.args) or len(call_node.args) > len(
+        l_args.args
+    ):
+        return False
+    names = [a.arg for a in l_args.args]
+    bound = names[: len(call_node.args)]
+    for k in call_node.keywords:
+        if k.arg is None or k.arg not in names or k.arg in bound:
+            return False
+        bound.append(k.arg)
+    with_default = names[len(names) - len(l_args.defaults) :] if l_args.defaults else []
+    return all(n in bound or n in with_default for n in names)
 
 
 def convolute(ast_g: ast.Lambda, ast_f: ast.Lambda):
@@ -461,9 +486,17 @@ class simplify_chained_calls(FuncADLNodeTransformer):
 
         Also, if this is a First() call, then move the call inside it.
         """
-        if type(call_node.func) is ast.Lambda:
+        if type(call_node.func) is ast.Lambda and _binds_all_parameters(call_node):
             arg_asts = [self.visit(a) for a in call_node.args]
             keyword_asts = [(k.arg, self.visit(k.value)) for k in call_node.keywords]
+            # Parameters the call leaves out take their default (evaluated outside the lambda)
+            l_args = call_node.func.args
+            given = {a.arg for a in l_args.args[: len(arg_asts)]} | {k for k, _ in keyword_asts}
+            keyword_asts += [
+                (a.arg, self.visit(d))
+                for a, d in zip(l_args.args[len(l_args.args) - len(l_args.defaults) :], l_args.defaults)
+                if a.arg not in given
+            ]
 
             # The arguments come from the scope outside the lambda, and can use a variable
             # that has the same name as one of the lambda's parameters. Once they have been
@@ -608,12 +641,21 @@ class simplify_chained_calls(FuncADLNodeTransformer):
             # substituted can be visited again and must not be touched by the renaming.
             node = make_args_unique(node)
 
+        # Defaults are evaluated outside the lambda
+        new_args = node.args
+        if len(new_args.defaults) > 0 or any(d is not None for d in new_args.kw_defaults):
+            new_args = copy.copy(new_args)
+            new_args.defaults = [self.visit(d) for d in node.args.defaults]
+            new_args.kw_defaults = [
+                self.visit(d) if d is not None else None for d in node.args.kw_defaults
+            ]
+
         with stack_frame(self._arg_stack):
             for a in node.args.args:
                 self._arg_stack.define_name(a.arg, ast.Name(a.arg, ast.Load()))
             new_body = self.visit(node.body)
 
-        return ast.Lambda(args=node.args, body=new_body)
+        return ast.Lambda(args=new_args, body=new_body)
 
     def visit_Name(self, name_node):
         "Do lookup and see if we should translate or not."
